@@ -52,17 +52,30 @@ def make_transition(t, step, E, style, dkey="done", okind="vector"):
     if okind == "dict":            # Dict observation space: nested TensorDict for obs / next_obs
         obs = {"a": obs, "b": ids.copy()}
         nxt = {"a": nxt, "b": ids + NXT}
+    elif okind == "tuple":         # Tuple observation space: Transition turns it into tuple_obs_0 / tuple_obs_1
+        obs = (obs, ids.copy())
+        nxt = (nxt, ids + NXT)
+    elif okind == "image":         # channels-first image whose pixels all carry the tag
+        obs = np.broadcast_to(ids[:, None, None, None], (E, 1, 2, 2)).copy()
+        nxt = np.broadcast_to((ids + NXT)[:, None, None, None], (E, 1, 2, 2)).copy()
     if style == "single":          # is_vectorised = False: scalars, then unsqueeze(0)
         assert E == 1
-        tr = Transition(obs=obs[0], action=act[0], reward=float(rew[0]), next_obs=nxt[0], done=bool(done[0]))
+        first = lambda o: {k: v[0] for k, v in o.items()} if isinstance(o, dict) else (tuple(v[0] for v in o) if isinstance(o, tuple) else o[0])
+        tr = Transition(obs=first(obs), action=act[0], reward=float(rew[0]), next_obs=first(nxt), done=bool(done[0]))
         tr = tr.unsqueeze(0)
     else:
         tr = Transition(obs=obs, action=act, reward=rew, next_obs=nxt, done=done)
     td = tr.to_tensordict()
     td.batch_size = [E]
-    if dkey != "done":             # the buffer looks for "done", "termination", "terminated" in that order
-        td[dkey] = td["done"]
+    # the buffer looks for "done", "termination", "terminated" in that order; "a+b" = the flags under key a and
+    # the NEGATED flags under the later key b, which must be ignored
+    real, _, decoy = dkey.partition("+")
+    flags = td["done"].clone()
+    if real != "done":
+        td[real] = flags
         del td["done"]
+    if decoy:
+        td[decoy] = 1.0 - flags
     return td
 
 
@@ -75,6 +88,8 @@ def dec_obs(x, base):
             out.append(0)
         elif r.shape[0] == 2 and r[1] == r[0] + 0.5 and float(r[0]).is_integer() and base < r[0] < base + 1000:
             out.append(int(r[0]) - base)
+        elif r.shape[0] == 4 and np.all(r == r[0]) and float(r[0]).is_integer() and base < r[0] < base + 1000:
+            out.append(int(r[0]) - base)        # image: every pixel carries the tag
         else:
             out.append(BAD)
     return out
@@ -102,13 +117,14 @@ def decode_rows(td, kind, dkey="done"):
     def dec_any(o, base):
         if isinstance(o, torch.Tensor):
             return dec_obs(o, base)
-        a, b = dec_obs(o["a"], base), dec_scalar(o["b"], base)       # both members must carry the same tag
+        ks = sorted(o.keys())                                        # {a, b} or {tuple_obs_0, tuple_obs_1}
+        a, b = dec_obs(o[ks[0]], base), dec_scalar(o[ks[1]], base)   # both members must carry the same tag
         return [x if x == y else BAD for x, y in zip(a, b)]
     ob = dec_any(td["obs"], 0)
     nx = dec_any(td["next_obs"], NXT)
     ac = dec_scalar(td["action"], ACT)
     rw = np.asarray(td["reward"], dtype=np.float64).reshape(m, -1)
-    dn = np.asarray(td[dkey], dtype=np.float64).reshape(m, -1)
+    dn = np.asarray(td[dkey.partition("+")[0]], dtype=np.float64).reshape(m, -1)
     rows = []
     for i in range(m):
         r = float(rw[i, 0]) if rw.shape[1] == 1 else float("nan")
@@ -140,16 +156,23 @@ def cq_rows(rows):
 # ------------------------------------------------------------------ scripted environment (train mode)
 class ScriptEnv:
     """Vectorised environment whose observations are tags of (step, env); rewards and done flags follow a script.
-    It also photographs the two buffers at every step boundary (before step j+1 the buffers hold the result of
-    the first j additions), which needs no hook in the training loop."""
+    It also photographs the two buffers at every step / reset boundary (before step j+1 the buffers hold the result
+    of the first j additions) and, at the first step after a reset, looks at how many raw transitions the n-step
+    deque still holds; this needs no hook in the training loop."""
 
-    def __init__(self, E, script, snap):
+    def __init__(self, E, script, snap, probe=None, plain=False):
         from gymnasium import spaces
-        self.num_envs = E
+        self._E = E
+        self.plain = plain          # plain = not vectorised: no num_envs attribute, scalar reward / done, unbatched obs
+        if not plain:
+            self.num_envs = E
         self.script = script
         self.snap = snap
+        self.probe = probe
         self.t = 0
         self.resets = 0
+        self.pending = None
+        self.reset_info = []          # [t, deque length seen at the first step after the reset at position t]
         self.actions = []
         self.single_observation_space = spaces.Box(0, 5000, (2,), np.float32)
         self.single_action_space = spaces.Discrete(3)
@@ -157,27 +180,35 @@ class ScriptEnv:
         self.action_space = self.single_action_space
 
     def _obs(self):
-        ids = np.array([tag(self.t, e, self.num_envs) for e in range(self.num_envs)], dtype=np.float32)
-        return np.stack([ids, ids + 0.5], axis=1)
+        ids = np.array([tag(self.t, e, self._E) for e in range(self._E)], dtype=np.float32)
+        o = np.stack([ids, ids + 0.5], axis=1)
+        return o[0] if self.plain else o
 
     def reset(self, **kw):
         self.resets += 1
-        if self.resets == 2:
+        if 0 < self.t:
             self.snap(self.t)
+            if self.t < len(self.script):
+                self.pending = self.t
         return self._obs(), {}
 
     def step(self, action):
-        E = self.num_envs
-        if self.resets == 1 and self.t < len(self.script):
+        E = self._E
+        if self.t < len(self.script):
             if self.t > 0:
                 self.snap(self.t)
+            if self.pending is not None:
+                self.reset_info.append([self.pending, self.probe() if self.probe else None])
+                self.pending = None
             rew = np.array([s[0] for s in self.script[self.t]], dtype=np.float64)
             done = np.array([bool(s[1]) for s in self.script[self.t]])
             self.actions.append([int(a) for a in np.asarray(action).reshape(-1)])
             self.t += 1
-        else:                       # evaluation after training: end at once
+        else:                       # beyond the script: end at once
             rew = np.zeros(E)
             done = np.ones(E, dtype=bool)
+        if self.plain:
+            return self._obs(), float(rew[0]), bool(done[0]), False, {}
         return self._obs(), rew, done, np.zeros(E, dtype=bool), {}
 
 
@@ -240,8 +271,30 @@ class C10(vlib.Driver):
             stream = [[[rng.randint(-16, 16) / 4.0, 1 if rng.random() < p else 0] for _ in range(E)] for _ in range(L)]
             cases.append({"kind": "direct", "n": n, "gamma": g, "cap": cap, "E": E, "style": "vector",
                           "stream": stream, "every": 1 if L <= 12 else 3,
-                          "dkey": ["done", "done", "terminated", "termination"][i % 4],
-                          "okind": "dict" if i % 5 == 4 else "vector"})
+                          "dkey": ["done", "done", "terminated", "termination", "done+terminated", "termination+terminated",
+                                   "done+termination"][i % 7],
+                          "okind": ["vector", "vector", "dict", "tuple", "image"][i % 5],
+                          "ctor": "pos" if i % 3 == 1 else "kw"})
+        # boundary-complete: two environments, every placement of done flags in both (different environments ending at
+        # different times, any()/all() over the environment axis), capacity = num_envs (every add rewrites the whole
+        # buffer) and capacity 3 (not a multiple of num_envs: two-slice writes)
+        L2 = 3 if tier == "quick" else 4
+        for L in range(1, L2 + 1):
+            for n in (1, 2, 3):
+                if n > L:
+                    continue
+                for bits in itertools.product([0, 1], repeat=2 * L):
+                    stream = [[[float(1 + t), bits[2 * t]], [float(2 + t) / 2, bits[2 * t + 1]]] for t in range(L)]
+                    cases.append({"kind": "direct", "n": n, "gamma": "1/2", "cap": 2 + (sum(bits) + L) % 2, "E": 2,
+                                  "style": "vector", "stream": stream, "every": 1,
+                                  "okind": ["vector", "tuple", "image", "dict"][(sum(bits) + n) % 4]})
+        # defaults of the constructor (n_step=3, gamma=0.99), single-env style with nested observations
+        for i in range(12 if tier == "quick" else 60):
+            L = rng.randint(3, 9)
+            stream = [[[rng.randint(-8, 8) / 2.0, 1 if rng.random() < 0.3 else 0]] for _ in range(L)]
+            cases.append({"kind": "direct", "n": 3, "gamma": "0.99", "cap": rng.randint(1, 5), "E": 1,
+                          "style": "single", "stream": stream, "every": 1, "ctor": "default",
+                          "okind": ["vector", "dict", "tuple", "image"][i % 4]})
         # the real training loop
         ntrain = 16 if tier == "quick" else 120
         for i in range(ntrain):
@@ -252,10 +305,17 @@ class C10(vlib.Driver):
             g = rng.choice(["1/2", "1/2", "1", "0.99"])
             p = rng.choice([0.15, 0.3, 0.5])
             stream = [[[rng.randint(-16, 16) / 4.0, 1 if rng.random() < p else 0] for _ in range(E)] for _ in range(L)]
+            # populations / generations: env.reset() between agent turns while the same n-step buffer keeps being fed
+            P, G = [(1, 1), (2, 1), (1, 2), (3, 1), (2, 2)][i % 5]
+            if P * G > 1:
+                S = rng.randint(max(2, n - 1), n + 3)
+                L = P * G * S
+                stream = [[[rng.randint(-16, 16) / 4.0, 1 if rng.random() < p else 0] for _ in range(E)] for _ in range(L)]
             # the four sampling sites of the loop: learn_step > num_envs or not, prioritised 1-step buffer or not
             cases.append({"kind": "train", "n": n, "gamma": g, "cap": cap, "E": E, "style": "vector", "stream": stream,
                           "batch": rng.randint(1, 3), "seed": rng.randint(0, 10 ** 6), "every": 1,
-                          "learn_step": 1 if i % 2 == 0 else E + 1, "per": (i // 2) % 2 == 1})
+                          "learn_step": 1 if i % 2 == 0 else E + 1, "per": (i // 2) % 2 == 1, "pop": P, "gens": G,
+                          "plain": E == 1 and i % 3 == 0})       # plain = environment without num_envs (is_vectorised False)
         return cases
 
     # ---------- implementation
@@ -264,8 +324,15 @@ class C10(vlib.Driver):
 
     def run_direct(self, case):
         n, cap, E = case["n"], case["cap"], case["E"]
-        nbuf = MultiStepReplayBuffer(max_size=cap, n_step=n, gamma=GAMMAS[case["gamma"]])
-        mem = ReplayBuffer(max_size=cap)
+        ctor = case.get("ctor", "kw")
+        if ctor == "pos":              # the way the test-suite builds it
+            nbuf = MultiStepReplayBuffer(cap, n, GAMMAS[case["gamma"]], "cpu")
+        elif ctor == "default":        # defaults of the constructor: n_step=3, gamma=0.99
+            assert n == 3 and case["gamma"] == "0.99"
+            nbuf = MultiStepReplayBuffer(max_size=cap)
+        else:                          # the way benchmarking/benchmarking_rainbow.py builds it
+            nbuf = MultiStepReplayBuffer(max_size=cap, n_step=n, gamma=GAMMAS[case["gamma"]], device="cpu")
+        mem = ReplayBuffer(max_size=cap, device="cpu")
         every = case.get("every", 1)
         dkey = case.get("dkey", "done")
         trace = []
@@ -290,7 +357,17 @@ class C10(vlib.Driver):
             idx = torch.tensor(list(range(len(mem)))[::-1])
             trace[-1]["smp"] = {"idx": idx.tolist(), "n": decode_rows(nbuf.sample_from_indices(idx), "direct", dkey),
                                 "m": decode_rows(mem.storage[idx], "direct", dkey)}
-        return {"trace": trace, "actions": None}
+            # the Sampler the training loop wraps around the n-step buffer, with a (B,) and a (B,1) index tensor
+            # (the latter is what PrioritizedReplayBuffer.sample reports as idxs)
+            from agilerl.components.sampler import Sampler
+            smp = Sampler(memory=nbuf)
+            flat = smp.sample(idx)
+            col = smp.sample(idx.unsqueeze(1))
+            extra = {"idx": idx.tolist(),
+                     "flat": {"shape": list(flat.batch_size), "rows": decode_rows(flat, "direct", dkey)},
+                     "col": {"shape": list(col.batch_size), "rows": decode_rows(col, "direct", dkey) if list(col.batch_size) == [len(idx)] else None}}
+            return {"trace": trace, "actions": None, "from_indices": extra}
+        return {"trace": trace, "actions": None, "from_indices": None}
 
     def run_train(self, case):
         from agilerl.algorithms.dqn_rainbow import RainbowDQN
@@ -308,17 +385,18 @@ class C10(vlib.Driver):
         else:
             mem = ReplayBuffer(max_size=cap)
         snaps, samples = {}, {}
+        P, G = case.get("pop", 1), case.get("gens", 1)
+        assert L % (P * G) == 0
+        S = L // (P * G)               # environment steps per agent turn
 
-        def snap(t):           # buffers after the first t additions
+        def snap(t):           # buffers after the first t additions (first photograph wins)
+            if t in snaps:
+                return
             snaps[t] = {"nlen": len(nbuf), "mlen": len(mem),
                         "nrows": decode_rows(nbuf.storage, "train") if nbuf.storage is not None else [None] * cap,
                         "mrows": decode_rows(mem.storage, "train") if mem.storage is not None else [None] * cap}
 
-        env = ScriptEnv(E, case["stream"], snap)
-        agent = RainbowDQN(env.single_observation_space, env.single_action_space,
-                           net_config={"encoder_config": {"hidden_size": [8]}},
-                           batch_size=case["batch"], learn_step=case.get("learn_step", 1), n_step=n, gamma=GAMMAS[case["gamma"]],
-                           num_atoms=5, v_min=-1.0, v_max=1.0)
+        env = ScriptEnv(E, case["stream"], snap, probe=lambda: len(nbuf.n_step_buffer), plain=bool(case.get("plain", False)))
 
         def recorder(experiences, n_experiences=None, per=False):      # stands in for RainbowDQN.learn
             idx = [int(i) for i in torch.as_tensor(experiences["idxs"]).reshape(-1)]
@@ -326,21 +404,36 @@ class C10(vlib.Driver):
                               "m": decode_rows(experiences, "train"),
                               "n": decode_rows(n_experiences, "train") if n_experiences is not None else None,
                               "mshape": list(experiences.batch_size),
+                              "ishape": list(torch.as_tensor(experiences["idxs"]).shape),
                               "nshape": list(n_experiences.batch_size) if n_experiences is not None else None}
             return 0.0, experiences["idxs"], np.ones(len(idx))
-        agent.learn = recorder
+
+        pop = []
+        for i in range(P):
+            agent = RainbowDQN(env.single_observation_space, env.single_action_space, index=i,
+                               net_config={"encoder_config": {"hidden_size": [8]}},
+                               batch_size=case["batch"], learn_step=case.get("learn_step", 1), n_step=n,
+                               gamma=GAMMAS[case["gamma"]], num_atoms=5, v_min=-1.0, v_max=1.0)
+            agent.learn = recorder
+            agent.test = (lambda *a, _ag=agent, **k: (_ag.fitness.append(0.0) or 0.0))     # evaluation does not touch the buffers
+            pop.append(agent)
         with contextlib.redirect_stdout(io.StringIO()), contextlib.redirect_stderr(io.StringIO()):
-            train_off_policy(env, "script", "RainbowDQN", [agent], mem, max_steps=L * E, evo_steps=L * E,
+            train_off_policy(env, "script", "RainbowDQN", pop, mem, max_steps=G * S * E, evo_steps=S * E,
                              eval_steps=1, eval_loop=1, n_step=True, per=per, n_step_memory=nbuf, verbose=False)
+        snap(L)
         if env.t != L or sorted(snaps) != list(range(1, L + 1)):
             raise RuntimeError(f"training loop made {env.t} environment steps (expected {L}); snapshots {sorted(snaps)}")
+        want_resets = [j * S for j in range(1, P * G)]
+        if [r[0] for r in env.reset_info] != want_resets:
+            raise RuntimeError(f"env.reset() seen at positions {[r[0] for r in env.reset_info]}, expected {want_resets}")
         trace = []
         for t in range(L):
             rec = dict(snaps[t + 1])
             rec["ret"] = None                       # return value of add is not observable from outside the loop
             rec["smp"] = samples.get(t + 1)
             trace.append(rec)
-        return {"trace": trace, "actions": env.actions}
+        # resets: [position, was the n-step deque empty at the first step after it]
+        return {"trace": trace, "actions": env.actions, "resets": [[r[0], r[1] == 0] for r in env.reset_info]}
 
     # ---------- the stream as the model sees it
     def cells(self, case, obs):
@@ -377,8 +470,30 @@ class C10(vlib.Driver):
                        + "; ".join(cq_orow(r) for r in s["m"]) + "]))")
             ol.append(f"(O {ret} {rec['nlen']} {rec['mlen']} {cq_rows(rec['nrows'])} {cq_rows(rec['mrows'])} {smp})")
         tol = coq_Q(TOL) if case["gamma"] == "0.99" else "0%Q"
-        return (f"check_run {case['n']} {case['cap']} {coq_Q(GAMMAS[case['gamma']])} {tol} "
-                f"[{'; '.join(xs)}] [{'; '.join(ol)}]")
+        nl = lambda l: "[" + "; ".join(str(int(x)) for x in l) + "]"
+        extra = ""
+        fi = obs.get("from_indices")
+        if fi:
+            col_rows = fi["col"]["rows"] if fi["col"]["rows"] is not None else []
+            extra += (f" && check_from_indices {case['n']} {case['cap']} {coq_Q(GAMMAS[case['gamma']])} {tol} [{'; '.join(xs)}] "
+                      f"{nl(fi['idx'])} {nl(fi['flat']['shape'])} [{'; '.join(cq_orow(r) for r in fi['flat']['rows'])}] "
+                      f"{nl(fi['col']['shape'])} [{'; '.join(cq_orow(r) for r in col_rows)}]")
+        for rec in obs["trace"]:          # leading shape of the learner's n-step batch = reshape(-1) of the index tensor
+            sm = rec.get("smp")
+            if sm and sm.get("ishape") is not None and sm.get("nshape") is not None:
+                extra += f" && shape_ok {nl(sm['ishape'])} {nl(sm['nshape'])}"
+        resets = obs.get("resets") or []
+        if resets:
+            at = {t: cl for t, cl in resets}
+            evs = []
+            for t, x in enumerate(xs):
+                if t in at:
+                    evs.append(f"Reset {'true' if at[t] else 'false'}")
+                evs.append(f"Step {x}")
+            return (f"(check_run_ev {case['n']} {case['cap']} {coq_Q(GAMMAS[case['gamma']])} {tol} "
+                    f"[{'; '.join(evs)}] [{'; '.join(ol)}]){extra}")
+        return (f"(check_run {case['n']} {case['cap']} {coq_Q(GAMMAS[case['gamma']])} {tol} "
+                f"[{'; '.join(xs)}] [{'; '.join(ol)}]){extra}")
 
     # ---------- oracle: the property stated directly on the implementation's behaviour
     def oracle(self, case, obs):
@@ -392,6 +507,21 @@ class C10(vlib.Driver):
         rew = lambda t, e: Fraction(cells[t][e][2])
         raw = lambda t, e: [cells[t][e][0], cells[t][e][1], cells[t][e][2], cells[t][e][3], 1.0 if cells[t][e][4] else 0.0]
         nx_last = {cells[t][e][3]: (t, e) for t in range(len(cells)) for e in range(E)}     # next-obs tag -> (step, env)
+        resets = obs.get("resets") or []
+        bounds = sorted(t for t, _ in resets)                 # env.reset() was called before these stream positions
+        rollout = lambda t: sum(1 for b in bounds if b <= t)  # which agent turn a stream position belongs to
+        cleared = sorted(t for t, cl in resets if cl)         # resets at which the deque was seen empty afterwards
+        span = []
+
+        def windows_done(now):
+            """start positions of the windows completed after `now` raw transitions, in the order they were stored:
+            a window never starts before and ends after a reset that emptied the deque"""
+            starts = [0] + cleared
+            out_ = []
+            for i, a in enumerate(starts):
+                b = min(now, starts[i + 1]) if i + 1 < len(starts) else now
+                out_ += list(range(a, max(a, b - n + 1)))
+            return out_
 
         def close(a, b):
             return a == b if exact else abs(a - b) <= TOL
@@ -415,6 +545,12 @@ class C10(vlib.Driver):
                 if done(j, e):
                     return Violation("leak", f"nstep:leak:{'first' if j == k else 'inner'}-terminal:{site}",
                                      f"{where}: window {k} env {e} (n={n}) runs to step {last} although env {e} terminated at step {j}")
+            if rollout(k) != rollout(last) and not span:
+                # the rewards summed did not follow (obs, action) k in its episode: env.reset() lies in between
+                span.append(Violation("spans-reset", f"nstep:spans-reset:{kind}",
+                                      f"{where}: window {k} env {e} (n={n}) starts in agent turn {rollout(k)} and takes rewards / next_obs up to "
+                                      f"step {last} of agent turn {rollout(last)}: env.reset() was called before step "
+                                      f"{[b for b in bounds if k < b <= last]} and no done flag separates them"))
             if m < n and not any(done(last, e2) for e2 in range(E)):
                 return Violation("cut", f"nstep:cut-short:{site}",
                                  f"{where}: window {k} env {e} stops after {m} < n={n} steps although no environment ended at step {last}")
@@ -441,36 +577,37 @@ class C10(vlib.Driver):
         out = []       # a layout finding must not hide a content finding on the same case: keep checking
         for t, rec in enumerate(obs["trace"]):
             now = t + 1
-            cnt = max(0, now + 1 - n)                      # windows completed so far
+            wins = windows_done(now)                       # windows completed so far
+            cnt = len(wins)
             # returned 1-step transition
             if rec["ret"] is not None:
                 ret = rec["ret"][0]
                 if (ret is None) != (now < n):
-                    return out + [Violation("returned", f"nstep:returned:{site}", f"step {t}: add returned {'None' if ret is None else 'a transition'} with {now} transitions seen, n={n}")]
+                    return out + span + [Violation("returned", f"nstep:returned:{site}", f"step {t}: add returned {'None' if ret is None else 'a transition'} with {now} transitions seen, n={n}")]
                 if ret is not None:
                     k = now - n
                     want = [raw(k, e) for e in range(E)]
                     if ret != want:
-                        return out + [Violation("returned", f"nstep:returned:{site}", f"step {t}: add returned {ret}, the raw transition {k} is {want}")]
+                        return out + span + [Violation("returned", f"nstep:returned:{site}", f"step {t}: add returned {ret}, the raw transition {k} is {want}")]
             want_len = min(cap, cnt * E)
             if rec["nlen"] != want_len or rec["mlen"] != want_len:
-                return out + [Violation("len", f"nstep:len:{site}", f"step {t}: len(n_step_memory)={rec['nlen']} len(memory)={rec['mlen']} expected {want_len}")]
+                return out + span + [Violation("len", f"nstep:len:{site}", f"step {t}: len(n_step_memory)={rec['nlen']} len(memory)={rec['mlen']} expected {want_len}")]
             if rec["nrows"] is not None:
                 nrows, mrows = rec["nrows"], rec["mrows"]
                 live_n = [r for r in nrows if r is not None]
                 if len(live_n) != want_len or len([r for r in mrows if r is not None]) != want_len:
-                    return out + [Violation("contents", f"nstep:contents:{site}", f"step {t}: {len(live_n)} written n-step rows, {len([r for r in mrows if r is not None])} written 1-step rows, expected {want_len}")]
+                    return out + span + [Violation("contents", f"nstep:contents:{site}", f"step {t}: {len(live_n)} written n-step rows, {len([r for r in mrows if r is not None])} written 1-step rows, expected {want_len}")]
                 for i, row in enumerate(nrows):
                     if row is None:
                         continue
                     v = check_row(row, f"step {t}, n_step_memory.storage[{i}]", now) or \
                         check_pair(row, mrows[i], f"step {t}, storage[{i}]")
                     if v:
-                        return out + [v]
+                        return out + span + [v]
                 # the stored windows are the most recent ones
                 have = sorted(r[0] for r in live_n)
-                if have != list(range(cnt * E - want_len + 1, cnt * E + 1)):
-                    return out + [Violation("contents", f"nstep:contents:{site}", f"step {t}: stored windows {have}, expected the last {want_len} of {cnt * E}")]
+                if have != sorted([tag(k, e, E) for k in wins for e in range(E)][cnt * E - want_len:]):
+                    return out + span + [Violation("contents", f"nstep:contents:{site}", f"step {t}: stored windows {have}, expected the last {want_len} of {cnt * E}")]
             s = rec.get("smp")
             if s is not None:
                 # what the learner receives: row j of the n-step batch and row j of the 1-step batch
@@ -479,18 +616,30 @@ class C10(vlib.Driver):
                                       f"step {t}: the learner receives a 1-step batch of shape {s.get('mshape')} and an n-step batch of shape "
                                       f"{s.get('nshape')} for the indices {s['idx']}: row j of one is not row j of the other"))
                 if s["n"] is None or len(s["n"]) != len(s["m"]):
-                    return out + [Violation("sample", f"nstep:sample-from-indices:{site}", f"step {t}: n-step batch {s['n']} for 1-step batch of {len(s['m'])} rows")]
+                    return out + span + [Violation("sample", f"nstep:sample-from-indices:{site}", f"step {t}: n-step batch {s['n']} for 1-step batch of {len(s['m'])} rows")]
                 for j, (nr, mr) in enumerate(zip(s["n"], s["m"])):
                     if nr is None:
-                        return out + [Violation("sample", f"nstep:sample-from-indices:{site}", f"step {t}: sampled index {s['idx'][j]} is an unwritten n-step row")]
+                        return out + span + [Violation("sample", f"nstep:sample-from-indices:{site}", f"step {t}: sampled index {s['idx'][j]} is an unwritten n-step row")]
                     v = check_row(nr, f"step {t}, n-step batch row {j} (index {s['idx'][j]})", now) or \
                         check_pair(nr, mr, f"step {t}, batch row {j} (index {s['idx'][j]})")
                     if v:
-                        return out + [v]
+                        return out + span + [v]
                     if rec["nrows"] is not None and (nr != rec["nrows"][s["idx"][j]] or mr != rec["mrows"][s["idx"][j]]):
-                        return out + [Violation("sample", f"nstep:sample-from-indices:{site}",
+                        return out + span + [Violation("sample", f"nstep:sample-from-indices:{site}",
                                           f"step {t}: batch row {j} = {nr} / {mr} but storage[{s['idx'][j]}] = {rec['nrows'][s['idx'][j]]} / {rec['mrows'][s['idx'][j]]}")]
-        return out
+        fi = obs.get("from_indices")
+        if fi:
+            last = obs["trace"][-1]
+            for name in ("flat", "col"):
+                got = fi[name]
+                if got["shape"] != [len(fi["idx"])]:
+                    return out + span + [Violation("batch-shape", f"nstep:sampler-batch-shape:{name}",
+                                                   f"Sampler(n_step_memory).sample(idxs) with a {'(B,1) column' if name == 'col' else '(B,) vector'} of "
+                                                   f"{len(fi['idx'])} indices returns a batch of shape {got['shape']}")]
+                if last["nrows"] is not None and got["rows"] != [last["nrows"][i] for i in fi["idx"]]:
+                    return out + span + [Violation("sample", f"nstep:sample-from-indices:{site}",
+                                                   f"Sampler(n_step_memory).sample({fi['idx']}) [{name}] = {got['rows']} but the storage rows are {[last['nrows'][i] for i in fi['idx']]}")]
+        return out + span
 
     # ---------- evidence bookkeeping
     def _features(self, case):
@@ -518,7 +667,7 @@ class C10(vlib.Driver):
         return f
 
     def key(self, case):
-        k = {x: case.get(x) for x in ("kind", "n", "gamma", "cap", "E", "stream", "learn_step", "per")}
+        k = {x: case.get(x) for x in ("kind", "n", "gamma", "cap", "E", "stream", "learn_step", "per", "pop", "gens", "okind", "dkey", "ctor", "style", "plain")}
         return super().key(k)
 
     def nontrivial(self, case, obs):
@@ -527,8 +676,12 @@ class C10(vlib.Driver):
 
     def classify(self, case, obs):
         labs = [f"kind={case['kind']}", f"n={case['n']}", f"gamma={case['gamma']}", f"envs={case['E']}", f"cap={case['cap']}",
-                f"style={case['style']}", f"done-key={case.get('dkey', 'done')}", f"obs={case.get('okind', 'vector')}", f"len={len(case['stream']) if len(case['stream']) <= 8 else '>8'}"]
+                f"style={case['style']}", f"done-key={case.get('dkey', 'done')}", f"obs={case.get('okind', 'vector')}", f"ctor={case.get('ctor', 'kw')}", f"cap{'=' if case['cap'] == case['E'] else ('<' if case['cap'] < case['E'] else '>')}envs", f"len={len(case['stream']) if len(case['stream']) <= 8 else '>8'}"]
         if case["kind"] == "train":
+            labs.append(f"train-pop={case.get('pop', 1)}:gens={case.get('gens', 1)}")
+            labs.append("train-env=" + ("plain" if case.get("plain") else "vectorised"))
+            for t, cl in (obs.get("resets") or []):
+                labs.append("reset-between-turns:deque-" + ("emptied" if cl else "kept"))
             labs.append(f"train-site:{'learn_step>envs' if case.get('learn_step', 1) > case['E'] else 'learn_step<=envs'}:{'per' if case.get('per') else 'uniform'}")
         nb = sum(1 for rec in obs["trace"] if rec.get("smp"))
         if nb:
